@@ -2,7 +2,7 @@
    mutually consistent and depend on operand values only. *)
 From Coq Require Import Floats SpecFloat.
 From Flocq Require Import IEEE754.BinarySingleNaN IEEE754.PrimFloat.
-From Grule Require Import Base Values ArithGen.
+From Grule Require Import Base Values CmpGen.
 Open Scope Z_scope.
 
 Inductive cmpop := CLt | CEq | CGt | CLe | CGe | CNe.
